@@ -926,7 +926,10 @@ def cli_multifile(ctx, files, jobs):
 
 def replay(ctx, path):
     """Re-run a recorded input on the real decoders: exit 1 + VIOLATION line iff the recorded behaviour is still there."""
-    r = json.load(open(path))
+    import replaylib
+    r = replaylib.load("C05", path)
+    if "base_hex" not in r and "truncate_to" not in r:
+        return replaylib.obligations("C05", run, r, path)
     vlib.c_build("asan", targets=["liblzma"])
     okh, log, exe = vlib.harness_build("c05", HARNESS)
     if not okh:
@@ -958,7 +961,6 @@ def replay(ctx, path):
                 t = now.split()
                 bad = bad or (int(t[1]) in (0, 1) and int(t[4]) != plain_len)
     if bad:
-        print("VIOLATION property=C05 replay=%s" % path)
-        return 1
+        return replaylib.failed(ctx, "C05", r, path)
     print("replay passes (the recorded behaviour is gone)")
     return 0
